@@ -400,6 +400,9 @@ fn corpus(rng: &mut Rng, cases: &mut Cases) {
     run_table(rng, cases, "corpus:fixed:bits-2pow62", &t, &fixed_realisation(vec![0, 4], 0), &[(vec![key(1), key(2), Sel::Count1], None), (vec![key(2), key(1), Sel::Count1], None)]);
     let t = table(vec![("id", ColType::Id, ints(&[0, 1, 2, 3])), ("k0", ColType::Int("u8"), opt_ints(&[Some(0), Some(255), None, Some(254)])), ("k1", ColType::Int("u16"), opt_ints(&[Some(0), Some(65535), None, Some(3)])), ("v0", ColType::Int("small"), ints(&[1, 1, 2, 1]))]);
     run_table(rng, cases, "corpus:fixed:fuse-narrow", &t, &fixed_realisation(vec![0, 4], 0), &[(vec![key(1), Sel::Count1], None), (vec![key(2), Sel::Agg('s', 3)], None), (vec![key(1), key(3), Sel::Count1], None)]);
+    // fixed (9a727c6): final pass over two grouping columns that share one result column (both constant 0)
+    let t = table(vec![("id", ColType::Id, ints(&[0])), ("k0", ColType::Int("small"), ints(&[0])), ("k1", ColType::Int("small"), ints(&[0])), ("v0", ColType::Int("small"), ints(&[-1]))]);
+    run_table(rng, cases, "corpus:fixed:finalpass-alias", &t, &fixed_realisation(vec![0, 1], 0), &[(vec![key(1), key(2), Sel::Agg('a', 3), Sel::Agg('s', 3), Sel::Agg('m', 3)], None)]);
     let t = table(vec![("id", ColType::Id, ints(&[0, 1, 2])), ("k0", ColType::Int("half"), ints(&[1 << 40, 0, 5])), ("k1", ColType::Int("half"), ints(&[1 << 41, 0, 5])), ("k2", ColType::Int("small"), ints(&[1, 0, 5]))]);
     run_table(rng, cases, "corpus:fixed:wide-pack", &t, &fixed_realisation(vec![0, 3], 0), &[(vec![key(1), key(2), key(3), Sel::Count1], None)]);
 }
